@@ -71,6 +71,29 @@ func c03Predicate(n *sim.Node, l *sim.Ledger, b *nom.AccountBlock, gate uint64) 
 		if confirmed > 0 {
 			return "predecessor", fmt.Sprintf("height 1 although the account has %d confirmed blocks", confirmed)
 		}
+	} else if embedded {
+		// a contract receive and its batched sends occupy consecutive heights on top of the tip
+		prevID := b.Previous()
+		if int(prevID.Height) > len(chainOf) || prevID.Height < confirmed {
+			return "predecessor", fmt.Sprintf("batch starts after height %d but the contract chain has %d blocks (%d confirmed)", prevID.Height, len(chainOf), confirmed)
+		}
+		if prevID.Height > 0 {
+			pred = chainOf[prevID.Height-1]
+			if pred.Hash != prevID.Hash {
+				return "predecessor", fmt.Sprintf("batch extends %v, the block at height %d is %v", prevID.Hash, prevID.Height, pred.Hash)
+			}
+		}
+		for i, d := range b.DescendantBlocks {
+			if d.Height != prevID.Height+uint64(i)+1 || d.Address != b.Address || d.BlockType != nom.BlockTypeContractSend {
+				return "batch", fmt.Sprintf("batched send %d has height %d / address %v / type %d", i, d.Height, d.Address, d.BlockType)
+			}
+			if d.Hash != d.ComputeHash() {
+				return "batch-hash", fmt.Sprintf("batched send %d does not hash to its recorded hash", i)
+			}
+		}
+		if b.Height != prevID.Height+uint64(len(b.DescendantBlocks))+1 {
+			return "height", fmt.Sprintf("height %d for a batch of %d after height %d", b.Height, len(b.DescendantBlocks), prevID.Height)
+		}
 	} else {
 		if int(b.Height-1) > len(chainOf) {
 			return "predecessor", fmt.Sprintf("height %d but the account chain has %d blocks", b.Height, len(chainOf))
@@ -484,6 +507,189 @@ func TestC03(t *testing.T) {
 		c.R.Count("candidates_accepted", accepted)
 		c.R.Count("candidates_reached_contextual_checks", reachedContext)
 		if reachedContext > 0 {
+			c.NonTrivial()
+		}
+	})
+}
+
+// TestC03Contract: contract receives offered from outside. The producer's pooled (not yet confirmed)
+// contract receives are the valid bases; a follower that has the same confirmed ledger but has not
+// seen them decides. Also: regenerated receives of sends that were already received (replays).
+func TestC03Contract(t *testing.T) {
+	pbt.Check(t, "C03", func(c *pbt.C) {
+		h := sim.NewHist(c, genSpec(c), genWorldOpts(c))
+		for _, in := range sim.DefaultIntents() {
+			h.Intents = append(h.Intents, in)
+		}
+		muts := c03Mutations()
+		b := h.W.AddNode("B", false)
+		offered, accepted, bases := 0, 0, 0
+		rounds := c.Int("rounds", 1, pbt.Scale(4, 8))
+		for r := 0; r < rounds && !h.Dead; r++ {
+			// calls to contracts, then a momentum: the worker leaves contract receives in the pool
+			for i := 0; i < c.Int("calls", 1, 6); i++ {
+				if c.Weighted("callkind", 3, 1) == 0 {
+					h.ActIntent()
+				} else {
+					h.ActCallABI()
+				}
+			}
+			if !h.Produce(c.Weighted("skip", 5, 1)) {
+				break
+			}
+			if c.Bool("extraMomentum") {
+				// later momentums exist while the receives are pooled only if the producer does not
+				// confirm them: not possible with the real worker; instead the follower is kept one
+				// momentum behind for some candidates (see below)
+			}
+			if _, err := b.Bridge.InsertChain(h.A.Range(b.Height()+1, h.A.Height())); err != nil {
+				c.Failf("C03/follower", "follower refused honest momentums: %v", err)
+			}
+			h.RefreshPools()
+			l, err := sim.Scan(b)
+			if err != nil {
+				c.Failf("C03/scan-error", "%v", err)
+			}
+			gate := verifier.ReceiverMismatchEnforcementHeight
+			// bases: the first pooled contract receive of every contract on the producer
+			var cands []*nom.AccountBlock
+			for _, ct := range sim.ContractList {
+				for _, blk := range h.A.Chain.GetUncommittedAccountBlocksByAddress(ct) {
+					if blk.BlockType == nom.BlockTypeContractReceive {
+						cands = append(cands, blk)
+						break
+					}
+				}
+			}
+			// replays: sends to contracts that are already received, regenerated if the node lets us
+			for _, s := range l.Sends {
+				if !types.IsEmbeddedAddress(s.ToAddress) || len(l.Recv[s.Hash]) == 0 || l.Pooled[s.Hash] {
+					continue
+				}
+				if c.Weighted("replay.try", 2, 1) == 0 {
+					continue
+				}
+				var rb *nom.AccountBlock
+				func() {
+					defer func() { _ = recover() }()
+					if ex, err := b.Sup.GenerateAutoReceive(s); err == nil && ex != nil && ex.Transaction != nil {
+						rb = ex.Transaction.Block
+					}
+				}()
+				offered++
+				if rb == nil {
+					continue
+				}
+				wb, err := sim.WireBlocks([]*nom.AccountBlock{rb})
+				if err != nil {
+					continue
+				}
+				if _, err := b.Sup.ApplyBlock(wb[0]); err == nil {
+					accepted++
+					if cl, d := c03Predicate(b, l, wb[0], gate); cl != "" {
+						c.Failf("C03/accepted-invalid/"+cl, "a regenerated contract receive of the already received send %v (to %s) was accepted although: %s", s.Hash, sim.ContractNames[s.ToAddress], d)
+					}
+				}
+			}
+			for _, base := range cands {
+				bases++
+				wb, err := sim.WireBlocks([]*nom.AccountBlock{base})
+				if err != nil {
+					continue
+				}
+				if _, err := b.Sup.ApplyBlock(wb[0]); err != nil {
+					c.Failf("C03/honest-contract-receive-refused", "the follower refuses the producer's contract receive %v/%d: %v", base.Address, base.Height, err)
+				}
+				if cl, d := c03Predicate(b, l, wb[0], gate); cl != "" {
+					c.Failf("C03/oracle-rejects-valid-block", "the checker's predicate rejects an honest contract receive (%s: %s)", cl, d)
+				}
+				for k := 0; k < pbt.Scale(20, 50); k++ {
+					cand := base.Copy()
+					name := ""
+					switch c.Weighted("cmut", 4, 2, 2, 2) {
+					case 0:
+						m1 := muts[c.Pick("mut1", len(muts))]
+						if !m1.apply(c, h, cand, l) {
+							continue
+						}
+						name = m1.name
+					case 1: // content of a batched send altered, its hash kept
+						if len(cand.DescendantBlocks) == 0 {
+							continue
+						}
+						d := cand.DescendantBlocks[c.Pick("d.idx", len(cand.DescendantBlocks))]
+						switch c.Pick("d.what", 4) {
+						case 0:
+							d.Amount = new(big.Int).Add(d.Amount, big.NewInt(1))
+						case 1:
+							d.ToAddress = h.Users[c.Pick("d.to", len(h.Users))]
+						case 2:
+							d.Data = append(append([]byte{}, d.Data...), 1)
+						default:
+							d.TokenStandard = types.QsrTokenStandard
+							if base.DescendantBlocks[0].TokenStandard == types.QsrTokenStandard {
+								d.TokenStandard = types.ZnnTokenStandard
+							}
+						}
+						name = "descendant-content-keeping-hashes"
+					case 2: // acknowledged momentum moved (earlier / later on the chain), hashes recomputed
+						top := b.Height()
+						hgt := uint64(c.Int("ackmove", 1, int(top)))
+						m, err := b.Chain.GetFrontierMomentumStore().GetMomentumByHeight(hgt)
+						if err != nil || m == nil || m.Identifier() == cand.MomentumAcknowledged {
+							continue
+						}
+						cand.MomentumAcknowledged = m.Identifier()
+						for _, d := range cand.DescendantBlocks {
+							d.MomentumAcknowledged = m.Identifier()
+							d.Hash = d.ComputeHash()
+						}
+						name = "ack-moved-all-rehashed"
+					default: // key / signature / plasma fields on a contract block
+						switch c.Pick("cfield", 4) {
+						case 0:
+							cand.PublicKey = h.W.Keys.Users[0].Public
+						case 1:
+							cand.Signature = []byte{1, 2, 3}
+						case 2:
+							cand.FusedPlasma = 21000
+						default:
+							cand.Difficulty = 1
+						}
+						name = "contract-block-with-user-fields"
+					}
+					mode := c.Weighted("repair", 2, 3)
+					if mode == 1 {
+						cand.Hash = cand.ComputeHash()
+						name += "/re-hashed"
+					}
+					wire, err := sim.WireBlocks([]*nom.AccountBlock{cand})
+					if err != nil {
+						continue
+					}
+					offered++
+					c.NonTrivialItem("contract/" + name)
+					if _, aerr := b.Sup.ApplyBlock(wire[0]); aerr != nil {
+						continue
+					}
+					accepted++
+					c.Class("accepted-contract-candidate:" + name)
+					if cl, d := c03Predicate(b, l, wire[0], gate); cl != "" {
+						c.Failf("C03/accepted-invalid/"+cl, "mutation %s of an honest contract receive was accepted although: %s\n block: %s", name, d, trunc(normBlock(wire[0]), 500))
+					}
+					x, y := wire[0].Copy(), base.Copy()
+					x.BasePlasma, x.TotalPlasma, x.ChangesHash, y.BasePlasma, y.TotalPlasma, y.ChangesHash = 0, 0, types.ZeroHash, 0, 0, types.ZeroHash
+					if normBlock(x) != normBlock(y) {
+						c.Failf("C03/accepted-invalid/contract-not-regenerated", "a contract receive that differs from the block the receiver regenerates was accepted (mutation %s):\n got  %s\n want %s",
+							name, trunc(normBlock(x), 600), trunc(normBlock(y), 600))
+					}
+				}
+			}
+		}
+		c.R.Count("contract_candidates_offered", offered)
+		c.R.Count("contract_candidates_accepted", accepted)
+		c.R.Count("contract_receive_bases", bases)
+		if bases > 0 {
 			c.NonTrivial()
 		}
 	})
